@@ -1,17 +1,17 @@
 SPECIFICATION Spec
 CONSTANTS
-  Conns = {"c1", "c2"}
+  Conns = {"c1"}
   Keys = {"k1"}
-  MaxChg = 2
+  MaxChg = 1
   MaxFlips = 1
-  MaxOps = 5
+  MaxOps = 7
   Versioned = TRUE
   Timer = FALSE
-  AllowRevoke = TRUE
+  AllowRevoke = FALSE
   AllowPublish = TRUE
   SplitTrack = FALSE
-  AsCoded = {}
-  Replay = FALSE
+  AsCoded = {"no-epoch-check"}
+  Replay = TRUE
 VIEW View
 INVARIANTS TypeOK VersionConsistent C25_Epoch
 PROPERTIES C25_Frames
